@@ -432,8 +432,7 @@ def check_all(ctx, tags, ran, periods, ev1, ev2, evo, rec_metric, rec_obs, rec_l
         ctx.count("saved_files_checked")
         if ep == "initial":
             ctx.count("initial_saves_checked")
-            if not first_run:
-                continue  # overwritten at the start of the second run; checked after the first
+            # (a second run rewrites it at its own train start: snaps["initial"] is then that run's snapshot)
         emeta = 0 if ep == "initial" else ep
         if md_mode == "only":
             if d != {"epoch_meta": emeta}:
